@@ -7,7 +7,7 @@
      dup_at / bad_at  : src = pre ++ (o,v) :: post, pre is fine, (o,v) is the first duplicate / first refused pair
      accepted o src   : parser results of the occurrences of o in src, in order (parser applied to the implicit
                         value where the string is empty and the option has an implicit value)                       *)
-Require Import V.Lib.Base V.Gen.Consts_C15 V.C15.Model V.C15.Spec V.C15.Proofs V.C15.Proofs2 V.C15.Proofs3.
+Require Import V.Lib.Base V.Gen.Consts_C15 V.C15.Model V.C15.Spec V.C15.Proofs V.C15.Proofs2 V.C15.Proofs3 V.C15.Proofs4.
 Local Open Scope Z_scope.
 
 (* no exception  <->  the source has neither a duplicate nor a refused pair *)
@@ -318,3 +318,114 @@ Example c15_ex_foreign_invalid_default :
          (c_store [mkC 2 (mkOpt false None (Some [49; 120]))]) (c_fail [mkC 2 (mkOpt false None (Some [49; 120]))]) [5%nat]
          (fun o => mkCell VALUE_UNASSIGNED [] (k_init 2)) (seq 0 1)) = Some (mkErr ERR_INVALID_DEFAULT 0%nat [49; 120]).
 Proof. vm_compute. reflexivity. Qed.
+
+(* ---------------- several RUNS over the same targets ----------------
+   An application may build its option set anew for every run (fresh OptionGroup / OptionContext, fresh storeTo(x) / store<T>(map) /
+   flag(map) / notify(..) values) and keep what the values are bound to: the variables, ONE ValueMap for the results.  Model: run_once =
+   fresh_cells (every option back in state unassigned with nothing parsed, variable := newrun o variable), then the sources
+   (run_sources from an empty parsed set), then assignDefaults; run_runs = run_once after run_once over the same store.
+   Spec.after_run n cs h p cs2 (all options o, composing or not):
+     o received a value from the sources of THIS run (run_mentioned)  <->  it is recorded in p; then it is back in state unassigned, its
+       accepted values are exactly run_values o h (the parser result of the single occurrence in the winning source; for a composing
+       option all results of all sources in order), at least one, and its variable = store of THESE values, in order, applied to the
+       re-built variable (newrun o (what the earlier runs left));
+     otherwise, if o is an option of the context with a default: the parser accepted the default, state defaulted, variable = store of
+       THAT value applied to the re-built variable; otherwise (no default / foreign name) the variable is what the earlier runs left. *)
+Theorem c15_run_values :
+  forall (val var : Type) (odesc : nat -> opt) (parser : nat -> str -> option val)
+         (store : nat -> val -> var -> var) (fail_write : nat -> str -> var -> var) (newrun : nat -> var -> var)
+         (n : nat) (cs : nat -> @cell val var) (h : list (option (list nat) * list (nat * str)))
+         (es : list (option err)) (e : option err) (p : list nat) (cs2 : nat -> @cell val var) (f : bool),
+    run_once val var odesc parser store fail_write newrun (seq 0 n) cs h = (es, e, p, cs2, f) -> all_none es -> e = None ->
+    f = false /\ after_run val var odesc parser store newrun n cs h p cs2.
+Proof. exact run_once_ok. Qed.
+Print Assumptions c15_run_values.
+
+(* after EVERY run k of a sequence of runs: its result is run_once over the store the runs 0..k-1 left, and (if the run raised no
+   error) that store is related to the run's own sources and defaults by after_run - whatever the earlier runs did *)
+Theorem c15_runs :
+  forall (val var : Type) (odesc : nat -> opt) (parser : nat -> str -> option val)
+         (store : nat -> val -> var -> var) (fail_write : nat -> str -> var -> var) (newrun : nat -> var -> var)
+         (n : nat) (cs : nat -> @cell val var) (hs : list (list (option (list nat) * list (nat * str)))) (k : nat)
+         (h : list (option (list nat) * list (nat * str))),
+    nth_error hs k = Some h ->
+    let before := snd (run_runs val var odesc parser store fail_write newrun (seq 0 n) cs (firstn k hs)) in
+    let '(es, e, p, cs2, f) := run_once val var odesc parser store fail_write newrun (seq 0 n) before h in
+    nth_error (fst (run_runs val var odesc parser store fail_write newrun (seq 0 n) cs hs)) k = Some (es, e, p, f) /\
+    snd (run_runs val var odesc parser store fail_write newrun (seq 0 n) cs (firstn (S k) hs)) = cs2 /\
+    (all_none es -> e = None -> f = false /\ after_run val var odesc parser store newrun n before h p cs2).
+Proof.
+  intros val var odesc parser store fail_write newrun n cs hs k h Hk.
+  pose proof (run_runs_nth val var odesc parser store fail_write newrun (seq 0 n) cs hs k h Hk) as H. cbv zeta in H |- *.
+  destruct (run_once val var odesc parser store fail_write newrun (seq 0 n)
+              (snd (run_runs val var odesc parser store fail_write newrun (seq 0 n) cs (firstn k hs))) h)
+    as [[[[es e] p] cs2] f] eqn:Eo.
+  destruct H as [H1 H2]. split; [exact H1|]. split; [exact H2|].
+  intros Hn He. exact (run_once_ok val var odesc parser store fail_write newrun n _ h es e p cs2 f Eo Hn He).
+Qed.
+Print Assumptions c15_runs.
+
+(* a target that an accepted value REPLACES once the option was re-built (store o x (newrun o v) does not depend on v: every typed
+   scalar, and every mapped value - ValueMap::add replaces the entry by the object the fresh value parsed) holds, after a run in
+   which it received a value (from a source or its default), exactly what the SAME run leaves over ANY other store: nothing of
+   what earlier runs left in the variable / the map survives *)
+Theorem c15_run_independent_of_earlier_runs :
+  forall (val var : Type) (odesc : nat -> opt) (parser : nat -> str -> option val)
+         (store : nat -> val -> var -> var) (fail_write : nat -> str -> var -> var) (newrun : nat -> var -> var)
+         (n : nat) (cs cs' : nat -> @cell val var) (h : list (option (list nat) * list (nat * str)))
+         (es : list (option err)) (e : option err) (p : list nat) (cs2 : nat -> @cell val var) (f : bool)
+         (es' : list (option err)) (e' : option err) (p' : list nat) (cs2' : nat -> @cell val var) (f' : bool),
+    run_once val var odesc parser store fail_write newrun (seq 0 n) cs h = (es, e, p, cs2, f) -> all_none es -> e = None ->
+    run_once val var odesc parser store fail_write newrun (seq 0 n) cs' h = (es', e', p', cs2', f') -> all_none es' -> e' = None ->
+    forall o, overwrites val var store newrun o -> run_received odesc n o h = true -> cs2 o = cs2' o.
+Proof. exact run_independent. Qed.
+Print Assumptions c15_run_independent_of_earlier_runs.
+
+(* the harness instance: every kind except the appending ones (4 = storeTo(std::vector<int>), 6 = the logging notifier) is replaced,
+   in particular every mapped kind 5 / 7 / 8 / 9 whatever the map held before; 4 and 6 append to what the earlier runs left *)
+Example c15_ex_overwrites :
+  (forall k, In k [0; 1; 2; 3; 5; 7; 8; 9] -> forall x v v', k_store k x (k_newrun k v) = k_store k x (k_newrun k v')) /\
+  k_store 4 [5] (k_newrun 4 [1; 2]) = [1; 2; 5] /\ k_store 6 [98] (k_newrun 6 [1; 97]) = [1; 97; 1; 98] /\
+  k_view 9 (k_store 9 [9] (k_newrun 9 [1; 1; 2])) = [9] /\ k_view 9 (k_store 9 [9] [1; 1; 2]) = [1; 2; 9].
+Proof.
+  split.
+  - intros k Hin x v v'. simpl in Hin.
+    destruct Hin as [<-|[<-|[<-|[<-|[<-|[<-|[<-|[<-|[]]]]]]]]]; try reflexivity; destruct v, v'; reflexivity.
+  - vm_compute. repeat split; reflexivity.
+Qed.
+
+(* three runs over one ValueMap (o0 = store<int>(map) default "1", o1 = store<vector<int>>(map) composing, o2 = storeTo(string), o3 =
+   storeTo(int) default "5"):   run 1: [o0=3 o1=1 o1=2] [o0=4 o2=first o3=8]   run 2: [o1=9] [o0=7 o2=second o1=10]   run 3: [o3=2].
+   All hypotheses of c15_runs hold (no error in any run); after run 2 the map holds 7 and [9,10] (not 3 / [1,2,9,10]), o3 is back at
+   its default; after run 3 o0 holds its default 1, o1 and o2 keep what run 2 left *)
+Definition ex_opts3 : list copt :=
+  [mkC 5 (mkOpt false None (Some [49])); mkC 9 (mkOpt true None None); mkC 3 (mkOpt false None None); mkC 2 (mkOpt false None (Some [53]))].
+Definition ex_init3 : nat -> ccell := fun o => mkCell VALUE_UNASSIGNED [] (k_init (kind_of ex_opts3 o)).
+Definition ex_runs3 : list (list (option (list nat) * list (nat * str))) :=
+  [ [(None, [(0%nat, [51]); (1%nat, [49]); (1%nat, [50])]); (None, [(0%nat, [52]); (2%nat, [102; 105; 114; 115; 116]); (3%nat, [56])])];
+    [(None, [(1%nat, [57])]); (None, [(0%nat, [55]); (2%nat, [115; 101; 99; 111; 110; 100]); (1%nat, [49; 48])])];
+    [(None, [(3%nat, [50])])] ].
+Definition ex_many3 := run_runs (list Z) (list Z) (desc_of ex_opts3) (c_parser ex_opts3) (c_store ex_opts3) (c_fail ex_opts3) (c_newrun ex_opts3) (seq 0 4) ex_init3.
+Example c15_ex_runs :
+  Forall (fun r => all_none (fst (fst (fst r))) /\ snd (fst (fst r)) = None /\ snd r = false) (fst (ex_many3 ex_runs3)) /\
+  length (fst (ex_many3 ex_runs3)) = 3%nat /\
+  map (fun o => k_view (kind_of ex_opts3 o) (c_var (snd (ex_many3 (firstn 1 ex_runs3)) o))) [0; 1; 2; 3]%nat
+    = [[3]; [1; 2]; [102; 105; 114; 115; 116]; [8]] /\
+  map (fun o => k_view (kind_of ex_opts3 o) (c_var (snd (ex_many3 (firstn 2 ex_runs3)) o))) [0; 1; 2; 3]%nat
+    = [[7]; [9; 10]; [115; 101; 99; 111; 110; 100]; [5]] /\
+  map (fun o => k_view (kind_of ex_opts3 o) (c_var (snd (ex_many3 ex_runs3) o))) [0; 1; 2; 3]%nat
+    = [[1]; [9; 10]; [115; 101; 99; 111; 110; 100]; [2]] /\
+  map (fun o => c_state (snd (ex_many3 ex_runs3) o)) [0; 1; 2; 3]%nat = [VALUE_DEFAULTED; VALUE_UNASSIGNED; VALUE_UNASSIGNED; VALUE_UNASSIGNED].
+Proof.
+  vm_compute. split; [|repeat split; reflexivity].
+  repeat constructor.
+Qed.
+
+(* the same through run_case (what the harness prints): [o0 = store<int>(map)] assign(o0='3') -> NEW RUN -> assign(o0='7'): the map holds 7;
+   [o0 = store<int>(map) default '1'] assign(o0='3') -> NEW RUN -> defaults: the map holds the default 1, state defaulted;
+   [o0 = store<vector<int>>(map) composing] assign(o0='1', o0='2') -> NEW RUN -> assign(o0='9'): the map holds [9] *)
+Example c15_ex_runs_case :
+  run_case [1; 5; 0; 0; 0; 1; 0; 1; 0; 1; 51; 6; 1; 0; 1; 0; 1; 55] = [0; 0; 1; 0; 1; 1; 3; 0; 0; 1; 0; 1; 1; 7] /\
+  run_case [1; 5; 0; 0; 1; 1; 49; 1; 0; 1; 0; 1; 51; 6; 2] = [0; 0; 1; 0; 1; 1; 3; 0; 0; 0; VALUE_DEFAULTED; 0; 1; 1] /\
+  run_case [1; 9; 1; 0; 0; 1; 0; 2; 0; 1; 49; 0; 1; 50; 6; 1; 0; 1; 0; 1; 57] = [0; 0; 1; 0; 1; 2; 1; 2; 0; 0; 1; 0; 1; 1; 9].
+Proof. vm_compute. repeat split; reflexivity. Qed.
